@@ -10,3 +10,22 @@ canary(P + "PrecisionCutoffProblem.evaluate", "fl_order", "C16",
                 cl("CANARY_result_finite", "is_fin(result)")])
 canary(P + "EvalCutoffProblem.evaluate", "paths", "C16 C03",
        ensures=[cl("CANARY_always_forwards", "self._n_evals == old(self._n_evals) + 1")])
+
+# one per later encoding feature (loops with local frames, dict / sorted models, comprehension position witnesses, constructors with ghost
+# statements, nested loops with early returns, heap functions)
+D = "pyhms.demes."
+canary(D + "lhs_deme.LHSDeme.run", "loop_local_frame", "C06 C02",
+       ensures=[cl("CANARY_history_unchanged", "len(self._history) == old(len(self._history))")])
+canary(D + "abstract_deme.AbstractDeme.__init__", "ghost_at_construction", "C07 C18",
+       ensures=[cl("CANARY_starts_hibernating", "self._hibernating"), cl("CANARY_shares_the_level_problem", "self._problem == deme_init_args.config.problem")])
+canary(D + "abstract_deme.AbstractDeme.best_individual", "heap_function", "C04 C13",
+       ensures=[cl("CANARY_never_an_individual", "result == None")])
+S = "pyhms.sprout.sprout_filters."
+canary(S + "DemeLimit.__call__", "dict_sorted_slice", "C10",
+       ensures=[cl("CANARY_keeps_limit_plus_one", "forall(lambda k: imp(0 <= k < len(candidates.keys()), "
+                   "len(candidates[candidates.keys()[k]].individuals) == self.limit + 1), pat=candidates.keys()[k])")])
+canary(S + "FarEnough.__call__", "comprehension_positions", "C09",
+       ensures=[cl("CANARY_everything_removed", "forall(lambda k: imp(0 <= k < len(candidates.keys()), "
+                   "len(candidates[candidates.keys()[k]].individuals) == 0), pat=candidates.keys()[k])")])
+canary("pyhms.stop_conditions.gsc.NoActiveNonrootDemes.__call__", "nested_loops_early_return", "C05",
+       ensures=[cl("CANARY_always_true", "result")])
